@@ -79,7 +79,15 @@ def grammar_case(fggs, rng, tier, seed, index, viols, obs):
     cls = G.CLASSES[index % len(G.CLASSES)]
     typed = index % 4 == 1
     forced = [rng.choice(['start-arity', 'inf-weight', 'zero-weight', 'edgeless-internal', 'edgeless-ext', 'nullary', 'edge-twice', 'many-rules', 'nt-without-rules', 'plain'])]
+    if typed and rng.random() < 0.6:
+        forced.append('size1-domain')
     spec = G.gen_spec(rng, cls if not typed else 'nonrec', forced, allow_inf=True, typed=typed)
+    if typed:
+        # a factor's weights may be any tensor: defaults other than zero are written out element by element
+        for t, ps in spec['patterns'].items():
+            if rng.random() < 0.5:
+                ps['default'] = rng.choice([0.5, 2.0, 1.0])
+                spec['weights'][t] = A.densify(ps)[0]
     unused = not typed and (index // 3) % 4 == 1
     if unused:
         # labels that are declared (and, for the terminal, interpreted) but occur in no rule
@@ -264,7 +272,9 @@ def weights_case(fggs, rng, index, viols, obs):
     import torch
     F = env.mod('fggs.formats')
     ts = TP.common_types(rng, depth=2, max_numel=8, max_total=200)
-    ps = TP.gen_pattern(rng, ts, lambda: rng.choice([0.0, 1.0, 2.5, -1.5, 0.5, math.inf]), rng.choice([0.0, 0.0, 1.0, -math.inf]), expand_p=0.0, shuffle=True)
+    if rng.random() < 0.3:
+        ts.insert(rng.randrange(len(ts) + 1), ('atom', 1))        # a size-1 argument position next to patterned ones
+    ps = TP.gen_pattern(rng, ts, lambda: rng.choice([0.0, 1.0, 2.5, -1.5, 0.5, math.inf]), rng.choice([0.0, 0.0, 1.0, -math.inf, 0.5]), expand_p=0.0, shuffle=True)
     psz = ps['psizes']
     # "expand": leading physical axes that are broadcast; the JSON stores only the remaining ones
     nexp = rng.choice([0, 0, 1, 2]) if psz else 0
@@ -307,6 +317,31 @@ def weights_case(fggs, rng, index, viols, obs):
         inv = A.check_invariant(out['value'])
         if inv:
             viols.append(C.viol('json_to_weights:invariant', inv, context=ctx))
+    # the writer's side: a factor over these weights is written element by element (FiniteFactor.to_json), whatever
+    # the pattern and the default, and read back to the same dense tensor
+    if all(s > 0 for s in A.shape_of(ps_eff)) and A.shape_of(ps_eff):
+        FA = env.mod('fggs.factors')
+        I = env.mod('fggs.indices')
+        pt = TP.realise(I, ps_eff, torch.get_default_dtype())
+        doms = [fggs.RangeDomain(n) for n in A.shape_of(ps_eff)]
+        ow = C.call(lambda: FA.FiniteFactor(doms, pt).to_json())
+        obs['factor_to_json_calls'] = obs.get('factor_to_json_calls', 0) + 1
+        if not ow['ok']:
+            viols.append(C.viol(f"exception:FiniteFactor.to_json:{ow['exc_type']}:{ow.get('where', '')}", f'to_json raised {ow["exc"]}', context=ctx, traceback=ow['tb']))
+        else:
+            try:
+                jw = json.loads(json.dumps(ow['value']['weights']))
+            except Exception as e:
+                jw = None
+                viols.append(C.viol('FiniteFactor.to_json:not-serialisable', f'{type(e).__name__}: {e}', context=ctx))
+            if jw is not None:
+                ol = C.call(F.json_to_weights, jw)
+                if not ol['ok']:
+                    viols.append(C.viol(f"exception:json_to_weights:written-weights:{ol['exc_type']}", f'json_to_weights of the written weights raised {ol["exc"]}', context=ctx))
+                else:
+                    back = A.densify_pt(ol['value'])
+                    if tuple(back.shape) != tuple(exp.shape) or not bool(((back == exp) | (torch.isnan(back) & torch.isnan(exp))).all()):
+                        viols.append(C.viol('FiniteFactor.to_json:value', f'weights {TP.depict(ps_eff)} written as {C.short(jw)}, which denotes another tensor than {C.short(exp.tolist())}', context=ctx))
     # dense nested list form and the dict form without "vaxes" (physical [+ expand] taken as the dense tensor)
     if (index // 3) % 3 == 0:
         d = torch.tensor(A.densify(ps_eff)[0], dtype=torch.get_default_dtype()).reshape(A.shape_of(ps_eff))
@@ -347,7 +382,7 @@ def run_case(tier, seed, index, spec=None):
 
 def finalize(tot, tier, seed):
     inc = []
-    for k in ('to_json_calls', 'from_json_calls', 'iso_checks', 'weights_compared', 'sum_product_compared', 'verbatim_checks', 'rejection_attempts', 'json_to_weights_calls'):
+    for k in ('to_json_calls', 'from_json_calls', 'iso_checks', 'weights_compared', 'sum_product_compared', 'verbatim_checks', 'rejection_attempts', 'json_to_weights_calls', 'factor_to_json_calls'):
         if tot['obs'].get(k, 0) == 0:
             inc.append(f'{k} never observed')
     for f in ('ids-explicit', 'ids-implicit', 'ids-mixed', 'domains-range', 'domains-finite', 'patterned', 'dense', 'inf-weight', 'start-arity', 'expand', 'odd-ids', 'unused-labels'):
